@@ -1182,6 +1182,50 @@ impl St {
                     }
                 })
             }
+            // `lreadexact L N` / `lreadall L [PREFIX]`: the linker read with read_exact (several polls over one buffer
+            // on the async side) / read_to_end into a vector that already holds PREFIX (answer = the bytes appended)
+            "lreadexact" => {
+                need(a, 2)?;
+                let id = parse_id(a[0], 'L')?;
+                let n = parse_usize(a[1])?;
+                if n > MAX_READ_BUF {
+                    return Err(Bad::Arg);
+                }
+                with_handle(&mut self.linkers, &id, |h| {
+                    let mut buf = vec![0u8; n];
+                    let r = match &mut h.k {
+                        LK::S(l) => l.read_exact(&mut buf).map(|_| ()),
+                        #[cfg(any(feature = "rt-async-std", feature = "rt-tokio"))]
+                        LK::A(l) => rt::block_on(async { l.read_exact(&mut buf).await.map(|_| ()) }),
+                    };
+                    match r {
+                        Ok(()) => format!("ok {}", hex_tok(&buf)),
+                        Err(e) => stdio_err(&e),
+                    }
+                })
+            }
+            "lreadall" => {
+                if a.is_empty() || a.len() > 2 {
+                    return Err(Bad::Line);
+                }
+                let id = parse_id(a[0], 'L')?;
+                let prefix = if a.len() == 2 { parse_bytes(a[1])? } else { Vec::new() };
+                with_handle(&mut self.linkers, &id, |h| {
+                    let mut buf = prefix.clone();
+                    let r = match &mut h.k {
+                        LK::S(l) => l.read_to_end(&mut buf),
+                        #[cfg(any(feature = "rt-async-std", feature = "rt-tokio"))]
+                        LK::A(l) => rt::block_on(async { l.read_to_end(&mut buf).await }),
+                    };
+                    match r {
+                        Ok(_) if buf.len() >= prefix.len() && buf[..prefix.len()] == prefix[..] => {
+                            format!("ok {}", hex_tok(&buf[prefix.len()..]))
+                        }
+                        Ok(_) => "err prefix-clobbered".to_string(),
+                        Err(e) => stdio_err(&e),
+                    }
+                })
+            }
             "lcommit" => {
                 need(a, 1)?;
                 let id = parse_id(a[0], 'L')?;
@@ -1337,6 +1381,10 @@ impl St {
             "cat" => {
                 need(a, 1)?;
                 Ok(envops::cat(&parse_path(a[0])?))
+            }
+            "hardlink" => {
+                need(a, 2)?;
+                Ok(envops::hardlink(&parse_path(a[0])?, &parse_path(a[1])?))
             }
             "chmod" => {
                 need(a, 2)?;
